@@ -168,8 +168,9 @@ def crash_remote(topo, cfg, culprit, kind):
                 st['cur'] = idx
                 if st['fired'] is None and bool(fi == idx):
                     st['fired'] = (idx, name)
-                    if kind == 'die_before':
-                        ep.die()
+                    if kind in ('die_before', 'reset_before'):
+                        # reset_before: the process is gone before it has read the request; the peer sees a reset instead of an end of file
+                        ep.die(reset=(kind == 'reset_before'))
                         raise R.Die()
                 return r
             if st['fired'] is not None and st['fired'][0] == st.get('cur') and not st.get('raised'):
@@ -209,29 +210,30 @@ def crash_remote(topo, cfg, culprit, kind):
         if st['fired'] is None:
             return ('nofault:' + str(r.outcome), {'nontrivial': False})
         if r.outcome in ('deadlock', 'livelock'):
-            eng.alarm('C14.hang', f'run() {r.outcome} after the fault: {desc}; in flight={[(w.label, len(w.inflight)) for w in loop.wires]}', {'fp': fp})
+            eng.alarm('C14.hang', f'run() {r.outcome} after the fault: {desc}; in flight={[(w.label, len(w.inflight)) for w in loop.wires]}',
+                      {'fp': fp, 'reset': kind == 'reset_before'})
         elif r.outcome == 'done':
             # a process that exits when mosaik needs nothing from it any more (no request after the exit) cannot matter to the run
             needed = kind != 'die_any' or any(x[1] == culprit and x[0] in ('step', 'get_data', 'setup_done') for x in log[st.get('log_at_exit', 0):])
             if needed:
-                eng.check(bool(errs), 'C14.silent', f'run() completed normally and logged no error although a simulator failed: {desc}', {'fp': fp})
+                eng.check(bool(errs), 'C14.silent', f'run() completed normally and logged no error although a simulator failed: {desc}', {'fp': fp, 'reset': kind == 'reset_before'})
         for sid in topo['types']:
             if sid == culprit:
                 continue
             fin = [i for i, x in enumerate(log) if x[0] == 'finalize' and x[1] == sid]
-            eng.check(len(fin) == 1, 'C14.finalize', f'{sid} was finalized {len(fin)} times: {desc}', {'fp': fp})
+            eng.check(len(fin) == 1, 'C14.finalize', f'{sid} was finalized {len(fin)} times: {desc}', {'fp': fp, 'reset': kind == 'reset_before'})
             if fin:
                 later = [x for x in log[fin[0] + 1:] if x[1] == sid and x[0] in ('step', 'get_data', 'setup_done')]
-                eng.check(not later, 'C14.after_stop', f'{sid} received {later[:3]} after finalize: {desc}', {'fp': fp})
+                eng.check(not later, 'C14.after_stop', f'{sid} received {later[:3]} after finalize: {desc}', {'fp': fp, 'reset': kind == 'reset_before'})
         left = [getattr(ep.sim, 'sid', '?') for ep in loop.endpoints if ep.ended == 'left-behind']
         eng.check(not left, 'C14.process', f'simulator process(es) {left} still running one (virtual) second after run() ended: neither a stop request '
-                  f'nor a closed connection reached them: {desc}', {'fp': fp})
+                  f'nor a closed connection reached them: {desc}', {'fp': fp, 'reset': kind == 'reset_before'})
         open_ = getattr(loop, 'mosaik_side_open', [])
-        eng.check(not open_, 'C14.socket', f'connection(s) {open_} not closed by mosaik when run() ended: {desc}', {'fp': fp})
-        eng.check(bool(r.closed_by_run), 'C14.loop', f'event loop not closed after run() (ended with {r.outcome} {getattr(r.exc, "args", "")}): {desc}', {'fp': fp})
+        eng.check(not open_, 'C14.socket', f'connection(s) {open_} not closed by mosaik when run() ended: {desc}', {'fp': fp, 'reset': kind == 'reset_before'})
+        eng.check(bool(r.closed_by_run), 'C14.loop', f'event loop not closed after run() (ended with {r.outcome} {getattr(r.exc, "args", "")}): {desc}', {'fp': fp, 'reset': kind == 'reset_before'})
         leaked = loop.leaked or []
         eng.check(not leaked, 'C14.leak', f'{len(leaked)} unfinished task(s) when the loop was closed: {sorted(leaked)[:4]}: {desc}',
-                  {'fp': fp, 'runner_only': all(n.startswith('Runner for') for n in leaked)})
+                  {'fp': fp, 'runner_only': all(n.startswith('Runner for') for n in leaked), 'reset': kind == 'reset_before'})
         return (r.outcome, {'nontrivial': True, 'fired': st['fired'], 'leaked': len(leaked), 'errs': len(errs)})
     return h
 
@@ -374,7 +376,7 @@ def jobs(tier):
             for remote in remotes:
                 if culprit not in remote:
                     continue
-                for kind in ('raise', 'die_before', 'die_after', 'die_any'):
+                for kind in ('raise', 'die_before', 'die_after', 'die_any') + (('reset_before',) if (name == 'tb2' and lazy) or not q else ()):
                     for cache in ((True,) if q else (True, False)):
                         # local simulators of a mixed scenario answer asynchronously
                         cfg = {'until': 3, 'K': 2, 'cache': cache, 'lazy': lazy, 'D': 0, 'sync': [], 'salt': 0, 'remote': remote, 'rst': kind != 'raise'}
